@@ -64,6 +64,8 @@ HOSTILE = [
     b'{"type":"match","data":{"path":{"text":"f.rs"},"lines":{"text":"ab\\n"},"line_number":0,"absolute_offset":0,"submatches":[]}}',
     b'{"type":"match","data":{"path":{"text":"f.rs"},"lines":{"text":"a\\t\xe2\x82\xac\xe2\x82\xac\xe2\x82\xac\xe2\x82\xac\\t\\n"},"line_number":3,"absolute_offset":0,"submatches":[{"match":{"text":"a"},"start":0,"end":1}]}}',
     b"\x1b[1;35m+foo\x1b\t[m", b"\x1b[1;35m-a\tb\x1b[\t0m", b"\x1b[1;<m\xe2\x82\xac\xe2\x82\xac\xe2\x82\xac\x1b[31mz", b"-\x1b[35mmoved\x1b", b"+\x1b[1;36mmoved\x1b[m", b"\x1bP\xe2\x9c\x85q\x1b[31mz",
+    # a tab where the marker columns of a combined-diff line are, plain and in moved-line colours
+    b"+\tx", b"\x1b[1;35m+\tfoo\x1b[m", b"\x1b[1;36m \t+z\x1b[m", b"\x1b[1;35m-\t\x1b[m",
     b"f.rs:1:x", b"f.rs-2-y", b"f.rs=3=fn z()", b"--", b"f.rs:x", b"a:b:c", b"\x1b[35mf.rs\x1b[m\x1b[36m:\x1b[m\x1b[32m1\x1b[m\x1b[36m:\x1b[mx",
     b'{"type":"match","data":{"path":{"text":"f.rs"},"lines":{"text":"ab\\n"},"line_number":1,"absolute_offset":0,"submatches":[{"match":{"text":"a"},"start":0,"end":1}]}}',
     b'{"type":"match","data":{"path":{"text":"f.rs"},"lines":{"text":"\xe2\x82\xac\\n"},"line_number":1,"absolute_offset":0,"submatches":[{"match":{"text":"x"},"start":1,"end":2}]}}',
